@@ -65,6 +65,18 @@ CHECKS = {
    technique="Derivative-order switching as a TLC-checked state machine (all switch sequences; values stable, tagging '<id><i>' in date order, 1<->2 keeps names); every TLC-enumerated switch sequence performed on real curves of every rule; after each switch the node state and the value, gradient and Hessian of every look-up are validated by TLC against the closed form evaluated on DualAlgebra numbers, index values against base / value",
    text="All sequences of up to 3 (4) switches from every initial order, float-valued and dual-valued nodes with custom names, both constructors; sensitivities are derived by TLC from the same TLA+ closed form as the values.",
    note="As C11; Hessians to 1e-9 of the sum of absolute terms."),
+ "C13": dict(engine="gauss", cat="model_checking", design="5/C13",
+   technique="Gaussian elimination with partial pivoting as a TLC-checked state machine on exact rationals (Pivot with last-maximum tie-break, Swap of A and b together, Eliminate, BackSub; invariants: non-zero pivot, row-equivalence to the original system, exact final solution) for every non-singular integer matrix of the entry set; the same matrices and seeded random systems solved by dsolve / fdsolve for all three number kinds and validated by TLC through the residual postcondition in value, gradient and Hessian (normal equations in least-squares mode) and against a row-permuted solve",
+   text="Exhaustive elimination paths (every pivot position, swap and no-swap) on the model; the real solvers are held to A x = b including every derivative carried by A and b, with pivoting forced by permutation-scrambled sparse systems and zero-valued entries that still carry derivatives.",
+   note="Residual tolerance 1e-9 of the sum of absolute terms; sizes up to 8x8 and tall systems up to ~13x6; well-conditioned systems only."),
+ "C14": dict(engine="spline", cat="model_checking", design="5/C14",
+   technique="Declarative piecewise-polynomial basis (Cox-de Boor on polynomials) model-checked by TLC against the B-spline axioms on every knot multiplicity pattern and quarter point; bsplev_single_f64 / bspldnev_single_f64 evaluated on the same TLC-written knot vectors (every basis index, derivative order 0..k+1, sample point incl. knots and both end points) and on random real knots, every value validated by TLC",
+   text="Exhaustive over orders 1..4 (6), interior multiplicities, basis indices, derivative orders and sample points including the right end point, where the derivative must be the left derivative.",
+   note="Oracle evaluated in doubles in the monomial basis with term-sum scaling; integer-valued and random real knots."),
+ "C15": dict(engine="spline", cat="model_checking", design="5/C15",
+   technique="Recorded csolve + evaluations of PPSpline<f64/Dual/Dual2> validated by TLC: collocation rows (interpolation and end derivative conditions) recomputed from the logged coefficients with DualAlgebra, every evaluation = sum c_i D^m B_i(x) for the 3x3 spline-type x abscissa-type table (two cells must be refused), polynomial reproduction, unit-data sensitivities, mismatched counts rejected",
+   text="Seeded scenarios over orders 2..6 and four site layouts (incl. natural / clamped cubic with asymmetric end conditions and least squares); the basis oracle is C14's model-checked definition.",
+   note="Model part is C14's basis model (the solved-spline layer is validated, not exhaustively enumerated); simple interior knots."),
 }
 
 PENDING = {
@@ -96,6 +108,10 @@ ENGINES = [
       serves_properties=["C09", "C10"], kind_free_text="exact TLA+ state machine of the FX triangulation checked by TLC + history validation of real FXRates objects"),
  dict(name="curve", path="spec/Curve.tla spec/MC_Curve.tla spec/Gen_Curve.tla spec/Trace_Curve.tla harness/src/curve.rs lib/checks_curve.py",
       serves_properties=["C11", "C12"], kind_free_text="TLA+ model of interval selection and order switching checked by TLC + history validation of real curves"),
+ dict(name="gauss", path="spec/Gauss.tla spec/MC_Gauss.tla spec/Trace_Gauss.tla harness/src/gauss.rs lib/checks_gauss.py",
+      serves_properties=["C13"], kind_free_text="exact-rational TLA+ model of Gaussian elimination checked by TLC + residual validation of the real solvers"),
+ dict(name="spline", path="spec/BSpline.tla spec/MC_BSpline.tla spec/Trace_BSpline.tla harness/src/spline.rs lib/checks_spline.py",
+      serves_properties=["C14", "C15"], kind_free_text="declarative piecewise-polynomial B-spline basis checked by TLC + validation of recorded basis values and solved splines"),
  dict(name="num", path="spec/FP.tla spec/java/FP.java spec/DualAlgebra.tla spec/NumVM.tla spec/MC_NumVM.tla spec/MC_Layout.tla spec/Gen_NumVM.tla spec/Trace_NumVM.tla harness/src/numvm.rs lib/checks_num.py",
       serves_properties=["C01", "C02", "C03", "C17", "C18", "C19"], kind_free_text="TLA+ register machine over by-name dual numbers; rules checked against finite differences by TLC; per-instruction trace validation"),
 ]
